@@ -66,6 +66,48 @@ def flows_from(f, o, pred, depth=10):
     return False
 
 
+PTR_ARITH = re.compile(r"::(wrapping_)?(byte_)?(add|sub|offset)$|::(map_addr|with_addr|offset_from|cast_mut)$")
+
+
+def calls_on_flow(f, o, depth=10, acc=None):
+    """all calls a value is computed through"""
+    acc = [] if acc is None else acc
+    if depth <= 0:
+        return acc
+    k = o.get("kind")
+    if k == "call":
+        acc.append(o["call"])
+        for a in o["call"].args:
+            calls_on_flow(f, f.origin(a), depth - 1, acc)
+    elif k == "bin":
+        calls_on_flow(f, o["a"], depth - 1, acc)
+        calls_on_flow(f, o["b"], depth - 1, acc)
+    elif k == "un":
+        calls_on_flow(f, o["a"], depth - 1, acc)
+    elif k == "agg":
+        for x in o["rv"]["ops"]:
+            calls_on_flow(f, f.origin(x), depth - 1, acc)
+    return acc
+
+
+def plain_ptr(f, operand):
+    """the pointer is not displaced: no pointer arithmetic (call or binary Offset) on its way"""
+    o = f.origin(operand)
+
+    def has_bin(o, d=10):
+        if d <= 0:
+            return False
+        k = o.get("kind")
+        if k == "bin":
+            return True
+        if k == "call":
+            return any(has_bin(f.origin(a), d - 1) for a in o["call"].args)
+        if k == "un":
+            return has_bin(o["a"], d - 1)
+        return False
+    return not has_bin(o) and not any(PTR_ARITH.search(mir.norm(n)) for c_ in calls_on_flow(f, o) for n in c_.names())
+
+
 def op_flows(f, operand, pred):
     return flows_from(f, f.origin(operand), pred)
 
@@ -397,6 +439,14 @@ def one(rep, c, cfg):
         for x in can:
             rep.ob("R20.3", f"FutureWrite::drop: cancels self {tag}", op_flows(f, x.args[0], is_arg(1, [], exact=True)),
                    "", f.loc(x.bb))
+        for x in can:
+            sinks = [b for b, t in f.drops(r"FutureWriteCancel<")] + \
+                [y.bb for y in f.calls(["mem::drop"]) if any("FutureWriteCancel<" in a for a in y.arg_types)]
+            rep.ob("R20.3", f"FutureWrite::drop: the cancel result (and the FutureWriter in it) is dropped, not "
+                            f"forgotten {tag}",
+                   bool(sinks) and f.all_paths_pass(x.bb, f.returns(), sinks) and
+                   not f.calls(["mem::forget", "ManuallyDrop::new", "Box::leak"]),
+                   "a cancelled write whose rebuilt writer is leaked never delivers the default value", f.loc(x.bb))
         rep.ob("R20.3", f"FutureWrite::drop: never touches the raw writer itself {tag}",
                not f.calls([OPS + "drop_writable", "ManuallyDrop::drop", "WaitableOperation::cancel",
                             "RawFutureWrite::cancel"]) and not raw_drops(f), "", f.loc())
@@ -520,7 +570,8 @@ def one(rep, c, cfg):
                            is_call(lift, proj=[])(f.origin(rv["ops"][0])), "", f.loc(b))
             for x in calls:
                 rep.ob("R20.4", f"write in_progress_update {n}: operates on this write's buffer and vtable {tag}",
-                       op_flows(f, x.args[1], from_buf) and op_flows(f, x.args[0], from_writer),
+                       op_flows(f, x.args[1], from_buf) and plain_ptr(f, x.args[1]) and
+                       op_flows(f, x.args[0], from_writer),
                        "the pointer does not come from the Cleanup of this operation", f.loc(x.bb))
             for b, rv in aggs_in(f, B, "Result", "Ok"):
                 o = f.origin(rv["ops"][0])
@@ -571,7 +622,8 @@ def one(rep, c, cfg):
                        res == {"Ok"}, detail, g.loc())
                 for x in lf:
                     rep.ob("R20.4", f"read in_progress_update Completed(0): lifts from this read's buffer {tag}",
-                           op_flows(g, x.args[1], is_arg(2, [".1"])) and op_flows(g, x.args[0], is_arg(2, [".0"])),
+                           op_flows(g, x.args[1], is_arg(2, [".1"])) and plain_ptr(g, x.args[1]) and
+                           op_flows(g, x.args[0], is_arg(2, [".0"])),
                            "", g.loc(x.bb))
                 for b, rv in aggs_in(g, B, "ReadComplete", "Value"):
                     rep.ob("R20.4", f"read in_progress_update Completed(0): the value yielded is the lifted one {tag}",
@@ -811,14 +863,15 @@ def one(rep, c, cfg):
                    ok and code_ok and state_ok, "the code interpreted is not the one the host returned", s.loc())
             for x in cs:
                 rep.ob("R20.7", f"{ty}::start: {good} gets this end's handle and the operation's buffer {tag}",
-                       op_flows(s, x.args[1], is_arg(2)) and op_flows(s, x.args[2], is_call("Cleanup::new", [".0"])),
+                       op_flows(s, x.args[1], is_arg(2)) and op_flows(s, x.args[2], is_call("Cleanup::new", [".0"])) and
+                       plain_ptr(s, x.args[2]),
                        "", s.loc(x.bb))
             if ty == "FutureWriteOp":
                 lw = s.calls(OPS + "lower")
                 rep.ob("R20.7", f"FutureWriteOp::start: lowers the value once into the buffer before start_write {tag}",
                        len(lw) == 1 and len(cs) == 1 and s.dominates(lw[0].bb, cs[0].bb) and not s.in_cycle(lw[0].bb) and
                        is_arg(2, [".1"], exact=True)(s.origin(lw[0].args[1])) and
-                       op_flows(s, lw[0].args[2], is_call("Cleanup::new", [".0"])),
+                       op_flows(s, lw[0].args[2], is_call("Cleanup::new", [".0"])) and plain_ptr(s, lw[0].args[2]),
                        "the value written is not the caller's value", s.loc())
             else:
                 rep.ob("R20.7", f"FutureReadOp::start: nothing is lowered or lifted when starting a read {tag}",
